@@ -166,9 +166,35 @@ pub fn check_queries(run: &Run, b: &Bench, e: &Expr) {
         // only the harness matcher records queries
         model.retain(|(_, v)| b.uni.list_for(&v.ty()).map(|ix| b.uni.lists[ix].1 == ListKind::Set).unwrap_or(false));
         run.eval(1);
-        // any()/all() may stop early: the recorded queries must be a prefix of the model's full list,
-        // and they must cover the model's list up to the deciding element
-        let ok = real.len() <= model.len() && real[..] == model[..real.len()] && (real.len() == model.len() || matches!(e, Expr::Quant(..)));
+        // How many operands of `and` / `or` and how many elements under any()/all() are evaluated,
+        // and in which order, is the engine's business: every recorded query must be one the
+        // reference makes when it evaluates everything (as often at most), and a filter without
+        // such freedom must make exactly the reference's queries. Source-order short-circuit
+        // evaluation (what the engine does today) is only counted.
+        let in_order = real.len() <= model.len() && real[..] == model[..real.len()] && (real.len() == model.len() || matches!(e, Expr::Quant(..)));
+        if in_order {
+            run.count("query_logs_in_source_order", 1);
+        }
+        let mut env_full = b.env(i);
+        env_full.qlog = Some(Vec::new());
+        env_full.eager = true;
+        env_full.eval_filter(e);
+        let mut full = env_full.qlog.take().unwrap();
+        full.retain(|(_, v)| b.uni.list_for(&v.ty()).map(|ix| b.uni.lists[ix].1 == ListKind::Set).unwrap_or(false));
+        let count = |v: &Vec<(String, V)>| {
+            let mut m = std::collections::BTreeMap::new();
+            for q in v {
+                *m.entry(format!("{q:?}")).or_insert(0usize) += 1;
+            }
+            m
+        };
+        let (cr, cf) = (count(&real), count(&full));
+        let within = cr.iter().all(|(k, n)| cf.get(k).copied().unwrap_or(0) >= *n);
+        let has_freedom = {
+            let d = format!("{e:?}");
+            d.contains("Chain(And") || d.contains("Chain(Or") || d.contains("Quant(")
+        };
+        let ok = within && (has_freedom || real == full);
         if ok {
             if !real.is_empty() {
                 run.count("query_logs_nonempty", 1);
